@@ -113,7 +113,7 @@ def judge(rep, prop, inp, by_id, results, stats, samples, replay_obj=None):
         req, impl = (ci or {}).get("req", "reject"), (ci or {}).get("impl", "")
         one_case = dict(base_inp, cases=[ci]) if ci else inp
         if r.get("error"):
-            if r["error"].startswith("OWN-OUTPUT"):
+            if r["error"].startswith("OWN-OUTPUT") or "own revocation refused" in r["error"]:
                 rep.violation(dict(kind="own-output-rejected", family=c.get("fam", "mut"), format=c.get("fmt", "")),
                               replay_obj or dict(property=prop, violation=r["error"], input=one_case))
             else:
@@ -181,10 +181,14 @@ def judge(rep, prop, inp, by_id, results, stats, samples, replay_obj=None):
                         for comp in h["components"]:
                             if comp["changes_view"] and mut_req.get("|".join(mut_key(kind, fmt, comp)), "any") == "reject":
                                 semantic += 1
+                                k = "%s/%s/multi" % (fmt, finding_class(fmt, comp))
+                                stats["semantic_classes"][k] = stats["semantic_classes"].get(k, 0) + 1
                                 rep.violation(dict(kind="tamper-accepted", format=fmt, mutation=finding_class(fmt, comp), where="multi"), rp)
                     elif req == "reject" or (r["id"] == "only" and mut_req.get("|".join(
                             mut_key(kind, fmt, dict(where=h.get("where", ""), efmt=h.get("efmt", ""), mclass=h.get("mclass", ""), pclass=h.get("pclass", "")))), "reject") == "reject"):
                         semantic += 1
+                        k = "%s/%s/%s%s" % (fmt, h["class"], "embedded " if h.get("where") == "embedded" else "", h.get("pclass") or "")
+                        stats["semantic_classes"][k] = stats["semantic_classes"].get(k, 0) + 1
                         rep.violation(dict(kind="tamper-accepted", format=fmt, mutation=h["class"], where=h.get("pclass") or c.get("pclass") or ""), rp)
                 if semantic:
                     stats["mut_accepted_semantic"] += m["accepted_changed_n"]
@@ -201,7 +205,7 @@ def judge(rep, prop, inp, by_id, results, stats, samples, replay_obj=None):
 def new_stats():
     return dict(evaluations=0, nonmut_runs=0, drift_verdict=0, drift_reason=0, drift_reason_pairs={}, drift_samples=[],
                 mut_instances=0, mut_executed=0, mut_rejected=0, mut_same_view=0, mut_paths=0, mut_unrealised=0,
-                mut_realised=0, mut_accepted_semantic=0, mut_accepted_unconstrained=0, unconstrained_classes={})
+                mut_realised=0, mut_accepted_semantic=0, mut_accepted_unconstrained=0, unconstrained_classes={}, semantic_classes={})
 
 
 def run(prop, tier, seed, replay=None):
@@ -228,13 +232,17 @@ def run(prop, tier, seed, replay=None):
         raise Inconclusive("prescriptive model violates %s:\n%s" % (chk.violation, chk.raw[-2500:]))
     models = [dict(cfg="Verify.c01.check.cfg", states=chk.distinct, transitions=chk.generated, depth=chk.depth, wall_s=round(chk.wall, 1))]
     if not quick:
-        missing = [a for a in ("Choose", "Issue", "Forge", "Present", "Mutate", "Verify") if not chk.coverage.get(a)]
+        missing = [a for a in ("ChooseAny", "Issue", "Forge", "Present", "Mutate", "Verify") if not chk.coverage.get(a)]
         if missing:
             raise Inconclusive("vacuity: actions never fired: %s" % missing)
         dev = vlib.tlc("MCVerify", "Verify.c01.deviation.cfg", workers=4, timeout=300)
         if dev.violation != "TamperEvident":
             raise Inconclusive("vacuity: the descriptive variant is expected to violate TamperEvident, TLC says %s %s" % (dev.violation, dev.error))
         models.append(dict(cfg="Verify.c01.deviation.cfg", states=dev.distinct, transitions=dev.generated, expected_violation="TamperEvident"))
+        dev2 = vlib.tlc("MCVerify", "Verify.c01.deviation2.cfg", workers=4, timeout=300)
+        if dev2.violation != "AcceptOnlyIf":
+            raise Inconclusive("vacuity: the didstore variant is expected to violate AcceptOnlyIf, TLC says %s %s" % (dev2.violation, dev2.error))
+        models.append(dict(cfg="Verify.c01.deviation2.cfg", states=dev2.distinct, transitions=dev2.generated, expected_violation="AcceptOnlyIf"))
     # 2. the descriptive variant (the code as it is) prints every case with the verdict required by the statement
     gen = vlib.tlc("MCVerify", "Verify.c01.gen.cfg", workers=8, timeout=600)
     if not gen.ok:
@@ -247,13 +255,14 @@ def run(prop, tier, seed, replay=None):
     if len({c["id"] for c in cases}) != len(cases) or not cases:
         raise Inconclusive("case enumeration is not a set of %d distinct cases" % len(cases))
     cases.append(dict(id="pairs", case=dict(fam="pairs"), req="reject", impl="rejected"))
+    cases.append(dict(id="statuslist", case=dict(fam="statuslist", kind="vc", fmt="ldp", kh="stable"), req="accept", impl="ok", failing=[]))
     by_id = {c["id"]: c for c in cases}
 
     # 3. every case on the real code
     inp = dict(seed=seed, cases=cases,
                method_mode="one" if quick else "all",
-               mut_fraction=0.25 if quick else 1.0, mut_min=2 if quick else 3,
-               pairs=40 if quick else 400)
+               mut_fraction=0.5 if quick else 1.0, mut_min=3,
+               pairs=100 if quick else 600)
     results = run_sharded(binary, inp, timeout=170 if quick else 900)
     got = {r["id"] for r in results}
     if got != set(by_id):
@@ -278,7 +287,7 @@ def run(prop, tier, seed, replay=None):
         fam_counts[k] = fam_counts.get(k, 0) + 1
     cov = dict(
         evaluations=stats["evaluations"],
-        distinct_nontrivial=stats["nonmut_runs"] + stats["mut_executed"],
+        distinct_nontrivial=stats["nonmut_runs"] + stats["mut_executed"] - stats["mut_same_view"],
         rule="TLC enumerates the complete abstract product of Verify.tla (families vc, vpsig, vpvc: document attributes x proof format x "
              "signer DID-document history x validation time x trust x revocation x flags; family mut: MutationClass x PathClass x "
              "format x position); each abstract case is one distinct TLC behaviour. Every non-mutation case is built from real objects "
@@ -292,15 +301,16 @@ def run(prop, tier, seed, replay=None):
         samples=samples,
         exhaustive=False,
         states=sum(m["states"] for m in models), transitions=sum(m["transitions"] for m in models),
-        models=models, abstract_cases=len(cases) - 1, abstract_cases_by_family_and_requirement=fam_counts,
+        models=models, abstract_cases=len(cases) - 2, abstract_cases_by_family_and_requirement=fam_counts,
         nonmutation_cases=n_nonmut, nonmutation_runs=stats["nonmut_runs"],
         mutation_classes_realised=stats["mut_realised"], mutation_classes_without_concrete_instance=stats["mut_unrealised"],
         concrete_mutants_available=stats["mut_instances"], concrete_mutants_executed=stats["mut_executed"],
-        concrete_paths_touched=stats["mut_paths"],
+        member_x_operatorclass_pairs_touched=stats["mut_paths"],
         mutants_rejected=stats["mut_rejected"], mutants_accepted_same_parsed_form=stats["mut_same_view"],
         mutants_accepted_semantic=stats["mut_accepted_semantic"],
         mutants_accepted_unconstrained=stats["mut_accepted_unconstrained"],
         unconstrained_classes_accepted=stats["unconstrained_classes"],
+        accepted_tampering_examples_by_class=stats["semantic_classes"],
         drift_verdict=stats["drift_verdict"], drift_reason=stats["drift_reason"],
         known_findings_reproduced=sorted(rep.known),
         action_coverage=chk.coverage,
